@@ -21,9 +21,9 @@ import (
 // Generous watchdogs. Their expiry alone never yields a violation: a violation needs
 // a structural witness on top (see inflight); otherwise the check is undecided.
 const (
-	waitBegin  = 100 * time.Second
-	waitSettle = 20 * time.Second
-	waitRerun  = 100 * time.Second // the task queue may legitimately pause for maxExecutionWait (1 min)
+	waitBegin  = 30 * time.Second
+	waitSettle = 15 * time.Second
+	waitRerun  = 30 * time.Second
 )
 
 // world is the state of one child: event log, received error reports, checks.
@@ -85,7 +85,7 @@ func newWorld(sp caseSpec, dir string) *world {
 		w.stopTimeouts.Add(1)
 		if st := modules.GetStatus(); st != nil {
 			if ms := st.Modules[subject]; ms != nil {
-				if ms.Workers != 0 || ms.Tasks != 0 || ms.MicroTasks != 0 || ms.CtrlFuncRunning {
+				if subject == w.subjectName && (ms.Workers != 0 || ms.Tasks != 0 || ms.MicroTasks != 0 || ms.CtrlFuncRunning) {
 					w.stopTOLeak.Store(true)
 				}
 				w.stopTOSnap.Store(fmt.Sprintf("%s: workers=%d tasks=%d microtasks=%d ctrlfn=%v", subject, ms.Workers, ms.Tasks, ms.MicroTasks, ms.CtrlFuncRunning))
@@ -133,6 +133,15 @@ func (w *world) check(oracle, kind, value string, ok bool, what string, detail a
 		failedOnce.Store(true)
 	}
 	w.out.Checks = append(w.out.Checks, c)
+}
+
+// checkHard records a failed check whose witness is structural: it stays a verdict even
+// when earlier waits of the case were cut short.
+func (w *world) checkHard(oracle, kind, value, what string, detail any) {
+	w.mu.Lock()
+	defer w.mu.Unlock()
+	failedOnce.Store(true)
+	w.out.Checks = append(w.out.Checks, check{Oracle: oracle, Kind: kind, Value: value, What: what, Detail: detail})
 }
 
 func (w *world) undecided(oracle, kind, value, what string) {
@@ -221,30 +230,33 @@ func errText(err error) string {
 var (
 	failedOnce   atomic.Bool
 	shortExpired atomic.Bool
+	slowOnce     atomic.Bool
 )
 
 const shortWait = 4 * time.Second
 
 // waitFor polls cond until it holds or the (generous) limit expires.
 func waitFor(limit time.Duration, cond func() bool) bool {
-	short := false
-	if failedOnce.Load() && limit > shortWait {
+	short, full := false, limit
+	if (failedOnce.Load() || slowOnce.Load()) && limit > shortWait {
 		limit, short = shortWait, true
-	}
-	if short {
-		defer func() {
-			if !cond() {
-				shortExpired.Store(true)
-			}
-		}()
 	}
 	deadline := time.Now().Add(limit)
 	d := 50 * time.Microsecond
 	for {
+		// cond may have side effects (claiming a report): evaluated once per round only
 		if cond() {
 			return true
 		}
 		if time.Now().After(deadline) {
+			if short {
+				shortExpired.Store(true)
+			} else if full >= 10*time.Second {
+				// the first full watchdog that expires makes the case a slow one:
+				// everything after it waits briefly only (and is not judged on that
+				// short clock)
+				slowOnce.Store(true)
+			}
 			return false
 		}
 		time.Sleep(d)
@@ -512,18 +524,27 @@ func (w *world) checkReturned(kind string, v *pvalue, err error) *modules.Module
 	return me
 }
 
+// boundStop: a case that is already slow or failed does not wait out the long stop
+// timeout as well (the timeout's verdict is its accounting snapshot, not its length).
+func (w *world) boundStop() {
+	if failedOnce.Load() || slowOnce.Load() {
+		modules.VerifSetStopTimeout(6 * time.Second)
+	}
+}
+
 // shutdownAndCheck stops the module system and decides "the module can still be
 // stopped" for cases whose stop routines are healthy.
 func (w *world) shutdownAndCheck(kind, value string, wantErr bool) {
 	w.log.Rec("call", "driver", "Shutdown", nil)
+	w.boundStop()
 	done := make(chan error, 1)
 	go func() { done <- modules.Shutdown() }()
 	var err error
 	select {
 	case err = <-done:
-	case <-time.After(150 * time.Second):
+	case <-time.After(90 * time.Second):
 		n, g := inflight()
-		w.undecided("stop", kind, value, fmt.Sprintf("Shutdown did not return within 150 s (%d goroutines in run paths) %s", n, trunc(g, 300)))
+		w.undecided("stop", kind, value, fmt.Sprintf("Shutdown did not return within 90 s (%d goroutines in run paths) %s", n, trunc(g, 300)))
 		return
 	}
 	w.log.Rec("ret", "driver", "Shutdown", map[string]any{"err": errText(err)})
@@ -536,7 +557,9 @@ func (w *world) shutdownAndCheck(kind, value string, wantErr bool) {
 	if n := w.stopTimeouts.Load(); n > 0 {
 		s, _ := w.stopTOSnap.Load().(string)
 		if w.stopTOLeak.Load() {
-			w.check("stop", kind, value, false,
+			// structural: every harness item that began has ended, yet the module's
+			// accounting was not zero when portbase gave up waiting
+			w.checkHard("stop", kind, value,
 				"stopping the module only completed through the stop timeout although all managed work had ended; accounting at the timeout: "+s, nil)
 		} else {
 			w.undecided("stop", kind, value, "the stop timeout expired although the accounting read zero: "+s)
